@@ -162,7 +162,10 @@ found:
 			env.vars[n] = v
 		}
 		env.lookup = func(name string) (Val, bool) { return x.lookupVar(fr, b, idx, name, env.cur) }
-		tm := x.trBool(ac.Clause.Expr, env)
+		tm, okc := x.trClause(labelOr(ac.Clause.Label, 0), ac.Clause.Text, ac.Clause.Expr, env, t.Pos())
+		if !okc {
+			continue
+		}
 		if ac.Kind == "assert" {
 			x.oblige("order", fmt.Sprintf("%s@select#%d", labelOr(ac.Clause.Label, 0), ac.K), implies(reach, tm), t.Pos(), ac.Clause.Text)
 		} else {
@@ -214,7 +217,10 @@ func (x *Exec) storeAnchors(fr *Frame, t *ssa.Store, st *State, reach Term) {
 			env.vars[n] = v
 		}
 		env.lookup = func(name string) (Val, bool) { return x.lookupVar(fr, b, idx, name, env.cur) }
-		tm := x.trBool(ac.Clause.Expr, env)
+		tm, okc := x.trClause(labelOr(ac.Clause.Label, 0), ac.Clause.Text, ac.Clause.Expr, env, t.Pos())
+		if !okc {
+			continue
+		}
 		if ac.Kind == "assert" {
 			x.oblige("order", fmt.Sprintf("%s@store:%s#%d", labelOr(ac.Clause.Label, 0), fld, ac.K), implies(reach, tm), t.Pos(), ac.Clause.Text)
 		} else {
